@@ -108,9 +108,10 @@ class ScalarFormatter(object):
         """
         self._sigma = sigma
         self._n_significant_digits = n_significant_digits
-        _sig = int(-np.floor(np.log10(self._sigma))) + self._n_significant_digits - 1
         # inner rounding needed for errors like 0.9999999 -> 1.0 (shift in decimal place)
-        self._sig = int(-np.floor(np.log10(np.around(self._sigma, _sig)))) + self._n_significant_digits - 1
+        # use string formatting for the rounding so that it agrees with how the uncertainty is displayed
+        _rounded_sigma = float("%.{}e".format(self._n_significant_digits - 1) % self._sigma)
+        self._sig = int(-np.floor(np.log10(_rounded_sigma))) + self._n_significant_digits - 1
 
     def __call__(self, x):
         """Format the input to the precision given by the uncertainty.
@@ -124,7 +125,8 @@ class ScalarFormatter(object):
         _log_abs_x = -1
         if _rounded_x:
             _log_abs_x = np.log10(np.abs(_rounded_x))
-        _val_sig = int(self._sig - int(-np.floor(_log_abs_x)) + self._n_significant_digits - 1)
+        # number of digits needed to display the value down to the last displayed digit of the uncertainty
+        _val_sig = int(self._sig - int(-np.floor(_log_abs_x)) + 1)
 
         _val_sig = max(_val_sig, 0)
 
